@@ -26,6 +26,28 @@ var (
 	VerifDials         int
 )
 
+// Socket values are built by constructor variables that two tiny files set - one with keyed
+// composite literals (survives added fields), one with positional ones (survives renamed fields).
+// The loader drops whichever no longer compiles; if both are gone the instance is unsupported.
+var (
+	verifNewTunnelSocket func(conn net.Conn, inbound <-chan Service) *TunnelSocket
+	verifNewRouterSocket func(conn *net.UDPConn, addr *net.UDPAddr, inbound <-chan Service) *RouterSocket
+)
+
+func verifMkTunnelSocket(conn net.Conn, inbound <-chan Service) *TunnelSocket {
+	if verifNewTunnelSocket == nil {
+		verifUnsupported("no socket constructor file compiles against this tree")
+	}
+	return verifNewTunnelSocket(conn, inbound)
+}
+
+func verifMkRouterSocket(conn *net.UDPConn, addr *net.UDPAddr, inbound <-chan Service) *RouterSocket {
+	if verifNewRouterSocket == nil {
+		verifUnsupported("no socket constructor file compiles against this tree")
+	}
+	return verifNewRouterSocket(conn, addr, inbound)
+}
+
 var VerifHostInfo = HostInfo{Protocol: UDP4, Address: Address{192, 0, 2, 7}, Port: 3671}
 
 func VerifReset(network string) {
@@ -54,17 +76,17 @@ func VerifNetClosed() int        { return verifNetClosed() }
 
 func verifDialTunnelUDP(address string) (*TunnelSocket, error) {
 	VerifDials++
-	return &TunnelSocket{VerifConn, VerifInbound}, nil // positional, as the library itself builds it: no field is named
+	return verifMkTunnelSocket(VerifConn, VerifInbound), nil
 }
 
 func verifDialTunnelTCP(address string) (*TunnelSocket, error) {
 	VerifDials++
-	return &TunnelSocket{VerifConn, VerifInbound}, nil // positional, as the library itself builds it: no field is named
+	return verifMkTunnelSocket(VerifConn, VerifInbound), nil
 }
 
 func verifListenRouter(ifi *net.Interface, multicastAddress string, loop bool) (*RouterSocket, error) {
 	VerifDials++
-	return &RouterSocket{&net.UDPConn{}, &net.UDPAddr{Port: 3671}, VerifInbound}, nil
+	return verifMkRouterSocket(&net.UDPConn{}, &net.UDPAddr{Port: 3671}, VerifInbound), nil
 }
 
 func verifHostInfoFromAddress(address net.Addr) (HostInfo, error) {
